@@ -1035,14 +1035,18 @@ func judge(w *World, input []byte, o Obs) []Verdict {
 			ok, v := e.accepts(w, ri, !batch)
 			// requests that must be answered are served first (an augmenting path never
 			// un-matches an entry), then null ids, then ambiguous entries, then the deviation
+			// (an entry whose bindability the oracle cannot decide accepts any outcome with its id: it must
+			// not take the response of an entry with a definite expectation and the same id)
 			tier := 0
-			switch e.kind {
-			case ekNullID:
-				tier = 1
-			case ekFuzzy:
-				tier = 2
-			case ekNotif:
+			switch {
+			case e.kind == ekNotif:
+				tier = 4
+			case e.kind == ekFuzzy:
 				tier = 3
+			case e.kind == ekNullID:
+				tier = 2
+			case e.kind == ekCall && e.known && e.bind == bindUnknown:
+				tier = 1
 			}
 			edges[i][k] = edge{ok, v, tier}
 		}
@@ -1055,7 +1059,7 @@ func judge(w *World, input []byte, o Obs) []Verdict {
 	for k := range respOf {
 		respOf[k] = -1
 	}
-	for tier := 0; tier <= 3; tier++ {
+	for tier := 0; tier <= 4; tier++ {
 		var try func(i int, seen []bool) bool
 		try = func(i int, seen []bool) bool {
 			for k := range entries {
